@@ -12,7 +12,7 @@
 From Coq Require Import NArith List Bool Lia PeanoNat.
 From FV Require Import Rb.RbModel Rb.RbInorder Rb.RbInvariant Rb.RbLayout Rb.RbPtr Rb.RbPtrBase Rb.RbPtrRefineRot
   Rb.RbPtrRefineIns Rb.RbPtrRefineFix Rb.RbPtrRefineInsert Rb.RbPtrRemF Rb.RbPtrRefineRem Rb.RbPtrRefineUnlink
-  Rb.RbPtrRefineReplace Rb.RbPtrRefineRemove.
+  Rb.RbPtrRefineReplace Rb.RbPtrRefineRemove Rb.RbAnnot Rb.RbPtrAnnot Rb.RbPtrRefineAttach Rb.RbPtrRefineOrder.
 Import ListNotations.
 
 Section Strip.
@@ -148,8 +148,50 @@ Section Strip.
   Qed.
   Lemma size_strip t : size (strip t) = size t.
   Proof. induction t as [|c l IHl x a r IHr]; cbn [strip size]; [reflexivity|]. rewrite IHl, IHr. reflexivity. Qed.
+  (* ---- and for the order variant *)
+  Lemma strip_ins_last x t : sp (ins_last agg x t) = ins_last uagg x (strip t).
+  Proof.
+    induction t as [|c l _ y a r IHr]; cbn [ins_last strip]; [reflexivity|].
+    rewrite <- IHr. destruct (ins_last agg x r) as [r' st]. unfold sp at 2. cbn [fst snd]. apply strip_up_ins.
+  Qed.
+  Lemma strip_ins_bef b x t : option_map sp (ins_bef id_of agg b x t) = ins_bef id_of uagg b x (strip t).
+  Proof.
+    induction t as [|c l IHl y a r IHr]; cbn [ins_bef strip]; [reflexivity|].
+    destruct (N.eqb (id_of y) b).
+    - rewrite <- strip_ins_last. destruct (ins_last agg x l) as [l' st]. unfold sp at 2. cbn [fst snd option_map]. rewrite strip_up_ins. reflexivity.
+    - rewrite <- IHl. destruct (ins_bef id_of agg b x l) as [[l' st]|]; cbn [option_map].
+      + unfold sp at 2. cbn [fst snd]. rewrite strip_up_ins. reflexivity.
+      + rewrite <- IHr. destruct (ins_bef id_of agg b x r) as [[r' st]|]; cbn [option_map]; [|reflexivity].
+        unfold sp at 2. cbn [fst snd]. rewrite strip_up_ins. reflexivity.
+  Qed.
+  Lemma strip_finish_ins p : strip (finish_ins p) = finish_ins (sp p).
+  Proof. destruct p as [t' st]. unfold sp. cbn [fst snd finish_ins]. destruct st; rewrite ?strip_paintB; reflexivity. Qed.
+  Lemma strip_insert_before b x t : strip (insert_before id_of agg b x t) = insert_before id_of uagg b x (strip t).
+  Proof.
+    unfold insert_before. destruct b as [b|].
+    - rewrite <- strip_ins_bef. destruct (ins_bef id_of agg b x t) as [p|]; cbn [option_map]; [apply strip_finish_ins|reflexivity].
+    - rewrite <- strip_ins_last. apply strip_finish_ins.
+  Qed.
+
+  (* ---- annotations: the annotation heap holds the annotations of t *)
+  Fixpoint areq (an : N -> annot) (t : tree elt annot) : Prop :=
+    match t with E => True | T _ l x a r => an (id_of x) = a /\ areq an l /\ areq an r end.
+  Lemma areq_aval an t : areq an t -> aval elt annot id_of an (strip t) = ann t.
+  Proof. destruct t as [|c l x a r]; cbn; [reflexivity|]. intros (-> & _). reflexivity. Qed.
+  Lemma areq_ainv an t : ann_ok agg t -> areq an t -> ainv elt annot id_of agg an (strip t).
+  Proof.
+    induction t as [|c l IHl x a r IHr]; cbn [ann_ok areq strip RbPtrAnnot.ainv]; [auto|].
+    intros (Ea & Ol & Or) (Ex & Al & Ar). rewrite (areq_aval an l Al), (areq_aval an r Ar). split; [congruence|auto].
+  Qed.
+  Lemma ainv_areq an t : ann_ok agg t -> ainv elt annot id_of agg an (strip t) -> areq an t.
+  Proof.
+    induction t as [|c l IHl x a r IHr]; cbn [ann_ok areq strip RbPtrAnnot.ainv]; [auto|].
+    intros (Ea & Ol & Or) (Ex & Al & Ar). specialize (IHl Ol Al). specialize (IHr Or Ar).
+    rewrite (areq_aval an l IHl), (areq_aval an r IHr) in Ex. split; [congruence|auto].
+  Qed.
 End Strip.
 Arguments strip {elt annot} t.
+Arguments areq {elt annot} id_of an t.
 
 Section Top.
   Variables elt annot : Type.
@@ -278,7 +320,7 @@ Section Top.
     pose proof (rb_height elt annot _ (remove_rb elt annot id_of agg i t Hrb)) as Hh'.
     assert (Hlog : Nat.log2 (size (remove id_of agg i t) + 1) <= Nat.log2 (size t + 1)).
     { apply Nat.log2_le_mono. pose proof (size_remove i t Nd). lia. }
-    destruct (p_remove_reprS elt annot id_of agg aeqb ek (strip t) n i s fuel) as (s' & A & B).
+    destruct (p_remove_reprS elt annot id_of agg aeqb ek (strip t) n i s fuel) as (s' & A & B & _).
     - rewrite inorder_strip. exact Nd.
     - apply rbt_strip, Hr.
     - rewrite inorder_strip. exact Hi.
@@ -287,6 +329,92 @@ Section Top.
     - rewrite <- (strip_remove elt annot id_of agg), height_strip. lia.
     - rewrite <- (strip_remove elt annot id_of agg) in B.
       exists s'. split; [exact A|]. split; [|exact Ndr]. apply (repr_reprS s' _ Ndr). exact B.
+  Qed.
+
+  (* ---- the same three operations INCLUDING the annotation heap, for aggregators with [agg_ok]:
+     [repr_a s t]: s represents t and stores at every member the annotation t carries there *)
+  Definition repr_a (s : pstate) (t : tree) : Prop := repr s t /\ areq id_of (p_annots s) t.
+
+  Lemma keys_tkeys ek (t : tree) : keys_ok ek t -> tkeys elt id_of ek (strip t).
+  Proof. intros H y Hy. rewrite inorder_strip in Hy. apply H, Hy. Qed.
+
+  Theorem p_insert_refines_a (ek : N -> elt) x (t : tree) (s : pstate) fuel :
+    agg_ok agg aeqb -> ann_ok agg t ->
+    NoDup (id_of x :: ids t) -> rb t -> ek (id_of x) = x -> keys_ok ek t ->
+    repr_a s t -> height t < fuel ->
+    exists s', p_insert less agg aeqb ek fuel s (id_of x) = POk s' /\ repr_a s' (insert less agg x t)
+               /\ NoDup (ids (insert less agg x t)).
+  Proof.
+    intros Ao Oa Nd [Hb [n Hr]] Hx Hk [H Ha] Hf.
+    assert (Nd0 : NoDup (ids t)) by (inversion Nd; assumption).
+    apply (repr_reprS s t Nd0) in H.
+    destruct (p_insert_reprS2 elt annot id_of less agg aeqb ek x (strip t) s fuel) as (s' & A & B & C & D).
+    - rewrite inorder_strip. exact Nd.
+    - rewrite isRed_strip. unfold isBlack in Hb. destruct (isRed t); [discriminate|reflexivity].
+    - apply (rbt_norr _ _ n). apply rbt_strip. exact Hr.
+    - exact Hx.
+    - intros y Hy. rewrite inorder_strip in Hy. apply Hk, Hy.
+    - exact H.
+    - rewrite height_strip. exact Hf.
+    - rewrite <- (strip_insert elt annot less agg) in B, C, D. rewrite inorder_strip in C.
+      exists s'. split; [exact A|]. split; [|exact C]. split; [apply (repr_reprS s' _ C); exact B|].
+      apply (ainv_areq elt annot id_of agg); [apply (insert_ann elt annot id_of less agg), Oa|].
+      apply D; [exact Ao|]. apply areq_ainv; assumption.
+  Qed.
+
+  Theorem p_remove_refines_a (ek : N -> elt) i (t : tree) (s : pstate) fuel :
+    agg_ok agg aeqb -> ann_ok agg t -> keys_ok ek t ->
+    NoDup (ids t) -> rb t -> In i (ids t) -> repr_a s t ->
+    2 * Nat.log2 (size t + 1) + 2 < fuel ->
+    exists s', p_remove agg aeqb ek fuel s i = POk s' /\ repr_a s' (remove id_of agg i t)
+               /\ NoDup (ids (remove id_of agg i t)).
+  Proof.
+    intros Ao Oa Hk Nd Hrb Hi [H Ha] Hf. pose proof Hrb as [Hb [n Hr]].
+    assert (Ndr : NoDup (ids (remove id_of agg i t))).
+    { rewrite (inorder_remove elt annot id_of agg i t Nd). apply (filter_nodup elt id_of), Nd. }
+    apply (repr_reprS s t Nd) in H.
+    pose proof (rb_height elt annot t Hrb) as Hh.
+    pose proof (rb_height elt annot _ (remove_rb elt annot id_of agg i t Hrb)) as Hh'.
+    assert (Hlog : Nat.log2 (size (remove id_of agg i t) + 1) <= Nat.log2 (size t + 1)).
+    { apply Nat.log2_le_mono. pose proof (size_remove i t Nd). lia. }
+    destruct (p_remove_reprS elt annot id_of agg aeqb ek (strip t) n i s fuel) as (s' & A & B & C).
+    - rewrite inorder_strip. exact Nd.
+    - apply rbt_strip, Hr.
+    - rewrite inorder_strip. exact Hi.
+    - exact H.
+    - rewrite height_strip. lia.
+    - rewrite <- (strip_remove elt annot id_of agg), height_strip. lia.
+    - rewrite <- (strip_remove elt annot id_of agg) in B, C.
+      exists s'. split; [exact A|]. split; [|exact Ndr]. split; [apply (repr_reprS s' _ Ndr); exact B|].
+      apply (ainv_areq elt annot id_of agg); [apply (remove_ann elt annot id_of less agg), Oa|].
+      apply C; [exact Ao|apply keys_tkeys, Hk|apply areq_ainv; assumption].
+  Qed.
+
+  (* tree_order_struct::insert(before, node) refines insert_before (hooks: any aggregator; annotations: agg_ok) *)
+  Theorem p_insert_before_refines (ek : N -> elt) before x (t : tree) (s : pstate) fuel :
+    NoDup (id_of x :: ids t) -> rb t -> (forall b, before = Some b -> In b (ids t)) ->
+    repr s t -> height t < fuel ->
+    exists s', p_insert_before agg aeqb ek fuel s before (id_of x) = POk s'
+               /\ repr s' (insert_before id_of agg before x t)
+               /\ NoDup (ids (insert_before id_of agg before x t))
+               /\ (agg_ok agg aeqb -> ann_ok agg t -> ek (id_of x) = x -> keys_ok ek t -> areq id_of (p_annots s) t ->
+                   areq id_of (p_annots s') (insert_before id_of agg before x t)).
+  Proof.
+    intros Nd [Hb [n Hr]] Hbef H Hf.
+    assert (Nd0 : NoDup (ids t)) by (inversion Nd; assumption).
+    apply (repr_reprS s t Nd0) in H.
+    destruct (p_insert_before_reprS elt annot id_of agg aeqb ek before x (strip t) s fuel) as (s' & A & B & C & D).
+    - rewrite inorder_strip. exact Nd.
+    - rewrite isRed_strip. unfold isBlack in Hb. destruct (isRed t); [discriminate|reflexivity].
+    - apply (rbt_norr _ _ n). apply rbt_strip. exact Hr.
+    - intros b Eb. rewrite inorder_strip. apply Hbef, Eb.
+    - exact H.
+    - rewrite height_strip. exact Hf.
+    - rewrite <- (strip_insert_before elt annot id_of agg) in B, C, D. rewrite inorder_strip in C.
+      exists s'. split; [exact A|]. split; [apply (repr_reprS s' _ C); exact B|]. split; [exact C|].
+      intros Ao Oa Hx Hk Ha.
+      apply (ainv_areq elt annot id_of agg); [apply (insert_before_ann elt annot id_of less agg), Oa|].
+      apply D; [exact Ao|exact Hx|apply keys_tkeys, Hk|apply areq_ainv; assumption].
   Qed.
 
   Theorem p_ins_run_refines (xs : list elt) : forall (t : tree) (s : pstate) ek fuel,
